@@ -34,6 +34,9 @@ structure WS where
   inflight : Option InFlight
   plan     : List Nat             -- `memStream.writePlan`
   deferW   : Bool                 -- `memStream.deferWrites`
+  /-- Ghost (no influence on behaviour): every frame ever queued, in submission order, and every byte the transport accepted. -/
+  hist     : List (List UInt8) := []
+  out      : List UInt8 := []
   deriving Repr, DecidableEq
 
 def WS.init (max : Int) : WS :=
@@ -67,7 +70,7 @@ def flushSync (s : WS) (o : Out) : Option (WS × Out) :=
   s.pending.foldlM (init := ({ s with pending := [] }, o)) fun (s, o) fr =>
     match writeAll (fr.length + s.plan.length + 1) s.plan fr [] with
     | none => none
-    | some (plan', segs) => some ({ s with plan := plan' }, { o with wire := o.wire ++ fr, segs := o.segs ++ segs })
+    | some (plan', segs) => some ({ s with plan := plan', out := s.out ++ fr }, { o with wire := o.wire ++ fr, segs := o.segs ++ segs })
 
 /-- `memStream.pumpWrite` for `AsyncWriteAll`: accept until the frame is complete or the transport takes 0 bytes. -/
 def pumpWrite : Nat → List Nat → InFlight → List Nat → List Nat × InFlight × List Nat × Bool
@@ -98,9 +101,10 @@ def asyncRun : Nat → WS → Out → Bool → WS × Out
       | none => (s, o)
       | some w =>
         let (plan', w', segs, complete) := pumpWrite (w.bytes.length + s.plan.length + 1) s.plan w []
-        let o := { o with wire := o.wire ++ (w.bytes.drop w.done).take (w'.done - w.done), segs := o.segs ++ segs }
-        if complete then asyncRun fuel { s with plan := plan', inflight := none } o true
-        else ({ s with plan := plan', inflight := some w' }, o)
+        let emitted := (w.bytes.drop w.done).take (w'.done - w.done)
+        let o := { o with wire := o.wire ++ emitted, segs := o.segs ++ segs }
+        if complete then asyncRun fuel { s with plan := plan', inflight := none, out := s.out ++ emitted } o true
+        else ({ s with plan := plan', inflight := some w', out := s.out ++ emitted }, o)
 
 /-- `AsyncFlush(callback)`. -/
 def asyncFlush (s : WS) (o : Out) (id : Nat) : WS × Out :=
@@ -119,10 +123,10 @@ inductive WOp where
   deriving Repr, DecidableEq
 
 /-- `AcquireFrame()` (client: `SetIsMasked`), `SetFIN`, `SetOpcode`, `SetPayload`, then `prepareWrite`'s `MaskPayload`,
-and finally the bytes `Encode` will hand to the write buffer. `pooled` is the slice the pool returned; `keys` the
-keys `crypto/rand` will produce (one is used iff `len(f.Payload()) > 0`). Returns the bytes and the keys left. -/
-def buildFrame (pooled : PFrame) (fin : Bool) (opcode : UInt8) (payload : Option (List UInt8)) (keys : List (List UInt8)) :
-    M (List UInt8 × List (List UInt8)) := do
+and finally the bytes `Encode` will hand to the write buffer. `pooled` is the slice the pool returned; `key` is the
+key `crypto/rand` produces if one is drawn (iff `len(f.Payload()) > 0`). Returns the bytes and whether a key was drawn. -/
+def buildFrame (pooled : PFrame) (fin : Bool) (opcode : UInt8) (payload : Option (List UInt8)) (key : List UInt8) :
+    M (List UInt8 × Bool) := do
   let f ← pooled.SetIsMasked
   let f ← if fin then f.SetFIN else pure f
   let f ← f.SetOpcode opcode
@@ -132,16 +136,20 @@ def buildFrame (pooled : PFrame) (fin : Bool) (opcode : UInt8) (payload : Option
   -- MaskPayload draws a key only when the frame's payload slice is not empty
   let poff ← payloadOffset (← f.SetIsMasked).bytes
   let needKey := decide (f.len > poff)
-  let key := if needKey then keys.headD [] else []
-  if (needKey ∧ key.length ≠ 4) ∨ (¬ needKey ∧ keys ≠ []) then throw .env
+  if needKey ∧ key.length ≠ 4 then throw .env
   let f ← f.MaskPayload key
-  pure (← f.wire, if needKey then keys.tail else keys)
+  pure (← f.wire, needKey)
 
-/-- A pooled frame of length `n` whose header bytes are zero (`releaseFrame` resets them). -/
-def pooledFrame (n : Nat) : PFrame := { arr := List.replicate n 0, len := n }
+/-- The keys the environment reported for one call must be exactly the keys the call drew. -/
+def keysOk (used : Bool) (keys : List (List UInt8)) : Bool := if used then keys.length == 1 else keys.isEmpty
+
+/-- A pooled frame of length `n` whose header bytes are zero (`releaseFrame` resets them); the backing array has at least
+the 14 bytes `NewFrame` allocated. (Contents past the header are stale bytes in reality; `C16_wire_format` shows
+that they never reach the wire, whatever they are.) -/
+def pooledFrame (n : Nat) : PFrame := { arr := List.replicate (max n 14) 0, len := n }
 
 def submit (s : WS) (o : Out) (async : Bool) (id : Nat) (fr : List UInt8) : Option (WS × Out) :=
-  let s := { s with pending := s.pending ++ [fr] }
+  let s := { s with pending := s.pending ++ [fr], hist := s.hist ++ [fr] }
   if async then some (asyncFlush s o id)
   else if s.inflight.isSome ∨ s.flushing then none      -- a blocking write while an asynchronous one is in flight: not modelled (C17)
   else (flushSync s o).map fun (s, o) => (s, { o with res := some .nil })
@@ -155,12 +163,14 @@ def step (s : WS) (id : Nat) : WOp → M (Option (WS × Out))
       if (payload.length : Int) > s.max then
         pure (some (s, if async then { cbs := [(id, .tooBig)] } else { res := some .tooBig }))
       else if s.active then
-        let (fr, _) ← buildFrame PFrame.new true opcode (some payload) keys
+        let (fr, used) ← buildFrame PFrame.new true opcode (some payload) (keys.headD [])
+        if ¬ keysOk used keys then throw .env
         pure (submit s {} async id fr)
       else pure (some (s, if async then { cbs := [(id, .cancelled)] } else { res := some .cancelled }))
   | .frame async opcode fin payload flen keys => do
       if s.active then
-        let (fr, _) ← buildFrame (pooledFrame flen) fin opcode payload keys
+        let (fr, used) ← buildFrame (pooledFrame flen) fin opcode payload (keys.headD [])
+        if ¬ keysOk used keys then throw .env
         pure (submit s {} async id fr)
       else pure (some (s, if async then { cbs := [(id, .cancelled)] } else { res := some .cancelled }))
   | .flush async =>
@@ -170,7 +180,8 @@ def step (s : WS) (id : Nat) : WOp → M (Option (WS × Out))
   | .close async code reason keys => do
       if s.active then
         let payload := Spec.WsFrame.beBytes 2 (code % 65536) ++ reason
-        let (fr, _) ← buildFrame PFrame.new true 8 (some payload) keys
+        let (fr, used) ← buildFrame PFrame.new true 8 (some payload) (keys.headD [])
+        if ¬ keysOk used keys then throw .env
         pure (submit { s with active := false } {} async id fr)
       else pure (some (s, if async then { cbs := [(id, .cancelled)] } else { res := some .cancelled }))
   | .pump => pure (some (asyncRun (2 * s.pending.length + 4) s {} false))
